@@ -452,7 +452,7 @@ class Builder:
         if not self.forms or self.r.random() < 0.5:
             return "plain"
         n = len(self.chunks[c]["rows"])
-        pool = ["recarray", "strided", "reversed", "readonly", "inplace", "inplace"]
+        pool = ["recarray", "strided", "reversed", "readonly", "inplace", "inplace", "returned"]
         if n == 1:
             pool += ["zerod", "zerod"]      # (a numpy.void record is a scalar, not an array: outside the statement)
         if n >= 2 and n % 2 == 0:
@@ -681,6 +681,19 @@ def path_form_histories(r, dl):
     return cs
 
 
+def size_digit_histories(r, dl):
+    """the stored row count crosses the boundaries where its number of digits changes (9 -> 10 -> 11, 99 -> 100 -> 101,
+    999 -> 1000): the in-place update must keep the 20-character field"""
+    textual = dl is not None
+    tag = "bin" if dl is None else {",": "csv", "\t": "tab", " ": "space"}[dl]
+    b = Builder(r, textual, dl, [["n", "|u1", []], ["s", "|S1", []]])
+    b.fn(False, h={"digits": True}, c=b.chunk(nrows=8)); b.fn(True, c=b.chunk(nrows=1)); b.read()
+    b.reopen(); b.again(c=b.chunk(nrows=1)); b.read(); b.again(c=b.chunk(nrows=1)); b.read("same")
+    b.again(c=b.chunk(nrows=88)); b.read(); b.again(c=b.chunk(nrows=1)); b.read(); b.close(); b.fn(True, c=b.chunk(nrows=1)); b.read()
+    b.fn(True, c=b.chunk(nrows=898)); b.read(); b.reopen(); b.again(c=b.chunk(nrows=1)); b.read("same"); b.again(c=b.chunk(nrows=1)); b.close(); b.read()
+    return b.case("adv:size-digits:" + tag)
+
+
 def random_history(r, maxops):
     textual = r.random() < 0.55
     b = Builder(r, textual)
@@ -901,13 +914,20 @@ def _run_history(case, real, name, sfile, eio, np, copy):
     decoy_data = np.zeros(3, dtype=[("q", ">f8"), ("w", "|S5")])
     if any(o.get("ctor") == "reuse2" for o in case["ops"]):
         sfile.write(decoy, decoy_data, header={"decoy": True, "k": "other"}, delim=":")
-    arrays, hdict = {}, {}
+    arrays, hdict, last_read = {}, {}, [None]
 
     def the_data(o):
         """the chunk as the case asks for it; view 'inplace': the SAME ndarray object as an earlier write of this
         history (same dtype and length), its contents overwritten in place"""
         ch = case["chunks"][o["c"]]
         a = make_data(ch)
+        if o.get("view") == "returned":
+            # the caller re-uses (a slice of) the array that an earlier sfile.read of this history RETURNED, changed in place
+            ret = last_read[0]
+            if ret is not None and ret.dtype == a.dtype and ret.size >= a.size and ret.flags.writeable:
+                ret[:a.size] = a
+                return ret[:a.size]
+            return a
         if o.get("view") == "inplace":
             key = (repr(ch["dtype"]), len(ch["rows"]))
             if key in arrays:
@@ -988,6 +1008,7 @@ def _run_history(case, real, name, sfile, eio, np, copy):
                     data = sfile.read(cur[0])
                 else:
                     data, h = sfile.read(cur[0], header=True)
+                last_read[0] = data if type(data) is np.ndarray else None
                 size = h.get("_SIZE")
                 ans = ["read", int(size) if isinstance(size, int) and not isinstance(size, bool) else -1,
                        fields_of(data.dtype) if (type(data) is np.ndarray and data.ndim == 1) else None,
@@ -1072,6 +1093,8 @@ class History(Entry):
                 cs += adversarial(r, dl is not None, dl)
             for dl in ([None, DELIMS[1 + ctx.seed % 3]] if ctx.quick() else DELIMS):
                 cs += path_form_histories(r, dl)
+            for dl in ([None, DELIMS[1 + (ctx.seed + 1) % 3]] if ctx.quick() else DELIMS):
+                cs.append(size_digit_histories(r, dl))
             sso = []
             for dl in DELIMS:
                 sso += same_size_overwrites(r, dl)
@@ -1455,7 +1478,7 @@ def run(ctx, replay=None):
         resource.setrlimit(resource.RLIMIT_STACK, (hard, hard))
     except Exception as e:  # noqa
         ctx.notes.append("could not raise the stack limit: %s" % e)
-    if core.proof_step(ctx, "C03", core.ALLOW_DISCRETE) and replay is None:
+    if core.proof_step(ctx, "C03", core.ALLOW_DISCRETE, extra_targets=("theories/C03/ExecText.vo",)) and replay is None:
         source_tie(ctx)
         if not ctx.quick():
             coqchk_step(ctx)
@@ -1505,7 +1528,14 @@ def run(ctx, replay=None):
         terms = ["v_enc %s (mkc %s %s (@nil (list byte)) [(%s, %s)])" % (cbytes(dl.encode()), cdtype(ch["dtype"]), crows(ch["rows"]),
                                                                          cbytes(dl.encode()), cbytes(bytes.fromhex(t))) for ch, dl, t in pairs]
         try:
-            vals = orig(os.path.join(ctx.work, "enc"), pre2, terms, shard=20, tag="enc")
+            try:
+                vals = orig(os.path.join(ctx.work, "enc"), pre2, terms, shard=20, tag="enc")
+            except core.CoqEvalError as e:
+                if "inconsistent assumptions" not in str(e):
+                    raise
+                # a library this one depends on (C04) was rebuilt by a concurrent check: rebuild and evaluate once more
+                core.coq_make(["theories/C03/ExecText.vo"])
+                vals = orig(os.path.join(ctx.work, "enc2"), pre2, terms, shard=20, tag="enc")
             bad = [(ch, dl) for (ch, dl, t), v in zip(pairs, vals) if v.strip("() ").replace("%Z", "") != "0"]
         except core.CoqEvalError as e:
             bad = [("<coq evaluation failed: %s>" % str(e)[-300:], None)]
